@@ -878,6 +878,7 @@ class ExecResult:
         self.unclean_event = None
         self.c_text = None
         self.builds = 0
+        self.compared = []  # indices (into specs) of the inputs whose result was compared
 
 
 def _line_buffered(drv):
@@ -928,6 +929,7 @@ def _absorb(r, ir, remaining, cases):
     complete = [c for c in cases if len(c["bufs"]) == nbuf]
     for (k, spec, vals, res), co in zip(remaining, complete):
         r.ninputs += 1
+        r.compared.append(k)
         if res.exact_ok:
             r.nexact += 1
         d = compare_full(ir, spec, co, vals, res.exact_ok)
